@@ -26,7 +26,8 @@ CONSTANTS N,              \* number of commands
           MaxSpecial,     \* at most this many "special" features in total: failing command, ignored reference, None result
           MemoKey,        \* "flag": the memo test is the finished flag | "result": a non-None stored result (a design that loses None results)
           OnlyDags,       \* restrict Init to acyclic programs
-          OnlyCyclic      \* restrict Init to cyclic programs
+          OnlyCyclic,     \* restrict Init to cyclic programs
+          MaxEdges        \* at most this many references in the program (N * N = no bound); bounds the 4-command cyclic family
 
 Cmd == 1..N
 VARIABLES direct, listed, fails,
@@ -69,6 +70,7 @@ ReachG(g, S, k) == IF k = 0 THEN S ELSE ReachG(g, S \cup UNION {g[c] : c \in S},
 CyclicG(g) == \E c \in Cmd : c \in ReachG(g, g[c], N)
 Init == /\ \E g \in [Cmd -> SUBSET Cmd] :
               /\ (OnlyDags => ~CyclicG(g)) /\ (OnlyCyclic => CyclicG(g))
+              /\ Cardinality(Edges(g)) <= MaxEdges
               /\ \E L \in SUBSET Edges(g) :
                     /\ listed = [c \in Cmd |-> {d \in g[c] : <<c, d>> \in L}]
                     /\ direct = [c \in Cmd |-> {d \in g[c] : <<c, d>> \notin L}]
@@ -173,7 +175,7 @@ AcyclicAccepted == (~HasCycle /\ fails = {} /\ Terminal) => pstate = "returned"
 NoSpuriousRecursive == (~HasCycle) => err # "RecursiveModelStructure"
 StackBounded == Len(stack) <= N /\ err # "StackOverflow"
 \* failure semantics (growth): an error is reported iff something needed fails; nothing finished is lost
-FailureReported == (~HasCycle /\ LastIsRun /\ Terminal) => ((pstate = "raised") <=> (fails # {}))
+FailureReported == (~HasCycle /\ LastIsRun /\ Terminal) => ((pstate = "raised") <=> (fails \cap Present # {}))      \* (a failing command that is not yet in the program cannot fail the run)
 FinishedStays == [][\A c \in Cmd : st[c] = "finished" => st'[c] = "finished" /\ val'[c] = val[c]]_vars
 NoRunningWhenIdle == (Idle /\ ResetOnUnwind) => \A c \in Cmd : st[c] # "running"
 \* liveness: every call terminates
